@@ -111,6 +111,9 @@ def gen_plan(run_seed, tier, profile, focus):
   if profile == "ec":
     from dst import engine_a_gen_ec as E
     return E.gen_ec(r, tier, f, focus)
+  if profile == "ec_big":
+    from dst import engine_a_gen_ec as E
+    return E.gen_ec_big(r, tier, f, focus)
   if profile == "ecdsa":
     from dst import engine_a_gen_ec as E
     return E.gen_ecdsa(r, tier, f, focus)
@@ -266,6 +269,18 @@ def _rsa_pool(r, f, focus):
     pool.append(A.rsa_art(n1 * A.rand_prime(r, 64), fam="nested"))
   if not pool:
     pool.append(A.rsa_degenerate(r, "m64"))
+  # byte encodings: DER sign byte / fixed-width buffers (value unchanged)
+  for a in pool:
+    if r.random() < 0.25:
+      a["n"] = "00" * r.choice([1, 1, 2, 8]) + a["n"]
+      a["truth"]["encoding"] = "leading_zero_n"
+    if r.random() < 0.10:
+      a["e"] = "00" * r.choice([1, 3]) + a["e"]
+  if r.random() < max(0.1, f["degenerate"] * 0.6):
+    a = r.choice(pool)
+    if a["healthy"]:
+      a.update(healthy=False, fam="huge_exponent:" + a["fam"])
+    a["e"] = A.i2h((1 << r.choice([4000, 15000, 20000, 50000])) + 1)
   r.shuffle(pool)
   return pool, deny
 
@@ -365,8 +380,15 @@ def _gen_rsa(r, tier, f, focus):
     if r.random() < 0.3:
       add_check()
     ops.append({"op": "heal"})
+  dups = {}
+  for j, a in enumerate(pool):
+    dups.setdefault(int(a["n"], 16) if a["n"] else 0, []).append(j)
+  dup_groups = [g for g in dups.values() if len(g) > 1]
   while len(ops) < length:
     u = r.random()
+    if dup_groups and u < 0.08:
+      add_check(batch=list(r.choice(dup_groups)))   # only identical moduli
+      continue
     if u < 0.55:
       add_check()
     elif u < 0.62:
